@@ -261,7 +261,8 @@ namespace OP2Utility::Archive
 			IndexEntry indexEntry;
 
 			uint64_t fileSize = volInfo.fileStreamReaders[i]->Length();
-			if (fileSize > UINT32_MAX) {
+			// The length field of a volume block header is 31 bits wide
+			if (fileSize > INT32_MAX) {
 				throw std::runtime_error("File " + volInfo.filesToPack[i] +
 					" is too large to fit inside a volume archive. Writing volume " + volumeFilename + " aborted.");
 			}
@@ -294,13 +295,23 @@ namespace OP2Utility::Archive
 			return;
 		}
 
-		volInfo.indexEntries[0].dataBlockOffset = volInfo.paddedStringTableLength + volInfo.paddedIndexTableLength + 32;
+		// Calculate offsets in 64 bits, so an offset that does not fit the 32 bit field is detected
+		uint64_t dataBlockOffset = static_cast<uint64_t>(volInfo.paddedStringTableLength) + volInfo.paddedIndexTableLength + 32;
+		if (dataBlockOffset > UINT32_MAX) {
+			throw std::runtime_error("Header is too large to create volume " + volumeFilename);
+		}
+		volInfo.indexEntries[0].dataBlockOffset = static_cast<uint32_t>(dataBlockOffset);
 
 		// Calculate offsets to the files
 		for (std::size_t i = 1; i < volInfo.fileCount(); ++i)
 		{
 			const IndexEntry& previousIndex = volInfo.indexEntries[i - 1];
-			volInfo.indexEntries[i].dataBlockOffset = (previousIndex.dataBlockOffset + previousIndex.fileSize + 11) & ~3;
+			dataBlockOffset = (static_cast<uint64_t>(previousIndex.dataBlockOffset) + previousIndex.fileSize + 11) & ~3;
+			if (dataBlockOffset > UINT32_MAX) {
+				throw std::runtime_error("File " + volInfo.filesToPack[i] +
+					" starts beyond the largest offset a volume archive can record. Writing volume " + volumeFilename + " aborted.");
+			}
+			volInfo.indexEntries[i].dataBlockOffset = static_cast<uint32_t>(dataBlockOffset);
 		}
 	}
 
